@@ -437,6 +437,10 @@ fn retype_menu() -> Vec<(&'static str, J)> {
         ("tempid-4e9", J::Str("!A4000000000".into())),
         ("tempid-D-huge", J::Str("!D999999999".into())),
         ("tempid-A3", J::Str("!A3".into())),
+        // small temporary ids next to the ones a serialisation already contains (the slots they skip stay empty; a later
+        // item may carry the temporary id of such an empty slot)
+        ("tempid-A1", J::Str("!A1".into())),
+        ("tempid-D2", J::Str("!D2".into())),
         ("empty-array", J::Arr(vec![])),
         ("empty-object", J::Obj(vec![])),
         ("unknown-id", J::Str("nope".into())),
@@ -635,6 +639,51 @@ fn build_seeds(dir: &str, tier: Tier) -> Vec<Seed> {
         // JSON store
         let json = store.to_json_string(&cfgc).expect("seed json");
         seeds.push(Seed { name: format!("json:{}", name), loader: Loader::StoreJson, doc: json.clone().into_bytes(), aux: vec![], filename: "doc.store.stam.json".into() });
+        // the same store with every data reference of an annotation replaced by the full definition (id, set, key, value): the
+        // form hand-written and generated documents use; the dataset still lists its data
+        if name == "text" {
+            if let Some(J::Obj(m)) = J::parse(&json) {
+                let mut defs: Vec<(String, String, J, J)> = Vec::new(); // (set, id, key, value)
+                if let Some((_, J::Arr(sets))) = m.iter().find(|(k, _)| k == "annotationsets") {
+                    for set in sets {
+                        if let J::Obj(sm) = set {
+                            let sid = sm.iter().find(|(k, _)| k == "@id").and_then(|(_, v)| if let J::Str(x) = v { Some(x.clone()) } else { None }).unwrap_or_default();
+                            if let Some((_, J::Arr(data))) = sm.iter().find(|(k, _)| k == "data") {
+                                for d in data {
+                                    if let J::Obj(dm) = d {
+                                        let get = |f: &str| dm.iter().find(|(k, _)| k == f).map(|(_, v)| v.clone());
+                                        if let (Some(J::Str(id)), Some(key), Some(value)) = (get("@id"), get("key"), get("value")) {
+                                            defs.push((sid.clone(), id, key, value));
+                                        }
+                                    }
+                                }
+                            }
+                        }
+                    }
+                }
+                let mut m2 = m.clone();
+                if let Some((_, J::Arr(anns))) = m2.iter_mut().find(|(k, _)| k == "annotations") {
+                    for a in anns.iter_mut() {
+                        if let J::Obj(am) = a {
+                            if let Some((_, J::Arr(refs))) = am.iter_mut().find(|(k, _)| k == "data") {
+                                for r in refs.iter_mut() {
+                                    if let J::Obj(rm) = r {
+                                        let get = |f: &str| rm.iter().find(|(k, _)| k == f).and_then(|(_, v)| if let J::Str(x) = v { Some(x.clone()) } else { None });
+                                        if let (Some(id), Some(set)) = (get("@id"), get("set")) {
+                                            if let Some(def) = defs.iter().find(|d| d.0 == set && d.1 == id) {
+                                                rm.push(("key".to_string(), def.2.clone()));
+                                                rm.push(("value".to_string(), def.3.clone()));
+                                            }
+                                        }
+                                    }
+                                }
+                            }
+                        }
+                    }
+                }
+                seeds.push(Seed { name: format!("json:{}+inline-data", name), loader: Loader::StoreJson, doc: J::Obj(m2).to_string().into_bytes(), aux: vec![], filename: "doc.store.stam.json".into() });
+            }
+        }
         // annotation array for annotate_from_file (base store = resources + datasets only)
         if name == "annotation-selectors-gaps-tempids" || name == "complex-selectors" {
             if let Some(J::Obj(m)) = J::parse(&json) {
